@@ -99,11 +99,15 @@ class OrdinaryKriging:
         """
         # store arguments to the instance
 
+        # keyword arguments of the variogram's distance metric
+        dist_metric_kwargs = {}
+
         if isinstance(variogram, Variogram):
             if coordinates is None:
                 coordinates = variogram.coordinates
             if values is None:
                 values = variogram.values
+            dist_metric_kwargs = variogram.metric_space.dist_metric_kwargs
             variogram_descr = variogram.describe()
             if variogram_descr["model"] == "harmonize":
                 variogram_descr["model"] = variogram._build_harmonized_model()
@@ -129,11 +133,16 @@ class OrdinaryKriging:
             self.dist_metric_kwargs = coordinates.dist_metric_kwargs
         else:
             self.dist_metric = variogram["dist_func"]
-            self.dist_metric_kwargs = {}
+            self.dist_metric_kwargs = dist_metric_kwargs
         # coordinates and semivariance function
         if not isinstance(coordinates, MetricSpace):
             coordinates, values = self._remove_duplicated_coordinates(coordinates, values)
-            coordinates = MetricSpace(coordinates.copy(), self.dist_metric, self.range if self.sparse else None)
+            coordinates = MetricSpace(
+                coordinates.copy(),
+                self.dist_metric,
+                self.range if self.sparse else None,
+                dist_metric_kwargs=self.dist_metric_kwargs
+            )
         else:
             assert self.dist_metric == coordinates.dist_metric, "Distance metric of variogram differs from distance metric of coordinates"
             assert coordinates.max_dist is None or coordinates.max_dist == self.range, "Sparse coordinates must have max_dist == variogram.effective_range"
